@@ -161,10 +161,21 @@ class HeadThenMerge(Cmp):
                 if not later:
                     return [(path, 'order within document not kept',
                              {'expected_group': _plain(g), 'observed': rest})]
-                hit = later[0]
-                dd = diff(x, rest[hit], '%s[%d]' % (path, hit + 1))
-                if dd:
-                    return dd
+                # several elements may share the pairing keys (two documents giving the same
+                # written form): take the first one that matches in full
+                hit, first_dd = None, None
+                for i in later:
+                    saved = dict(KNOWN_HITS)
+                    dd = diff(x, rest[i], '%s[%d]' % (path, i + 1))
+                    if not dd:
+                        hit = i
+                        break
+                    KNOWN_HITS.clear()
+                    KNOWN_HITS.update(saved)
+                    if first_dd is None:
+                        first_dd = dd
+                if hit is None:
+                    return first_dd
                 used.add(hit)
                 last = hit
         return []
